@@ -39,6 +39,7 @@ class Env(object):
         self.default_id = default_id
         self.read_ids = set()
         self.read_mem = set()
+        self.loads = []             # (address, bytes) of every load, in evaluation order
 
     def id(self, name, size):
         self.read_ids.add(name)
@@ -56,6 +57,7 @@ class Env(object):
         return _h("m", self.memseed, addr) & 0xFF
 
     def load(self, addr, nbytes):
+        self.loads.append((addr & 0xFFFFFFFF, nbytes))
         v = 0
         for i in range(nbytes):
             v |= self.byte(addr + i) << (8 * i)
